@@ -474,3 +474,4 @@ def c03_6(ctx: Ctx) -> RuleResult:
         i.rule = "C03.6"
     r.rule, r.title, r.floor = "C03.6", "realization_min_success / perturbation_min_success keep their configured value (default only for None, clamped to the ensemble / perturbation count)", 2
     return r
+
